@@ -21,6 +21,7 @@ func init() {
 	register(&Check{ID: "C15", Level: "exploration", Drive: c15})
 	apiParts["C15/sequential"] = c15Sequential
 	apiParts["C15/concurrent"] = c15Concurrent
+	apiParts["C15/replace-same"] = c15ReplaceSame
 	apiParts["C15/hysteresis"] = c15Hysteresis
 }
 
@@ -260,6 +261,68 @@ func hostsStr(hs []*host.Host) string {
 	return strings.Join(s, " ")
 }
 
+// c15ReplaceSame: the endpoint set is replaced again and again by the same endpoints (what a discovery push without changes does),
+// or by a set that keeps at least one healthy main host, while readers select. Every state between two operations has a healthy main
+// host, so no selection may ever see an empty list or a backup host.
+func c15ReplaceSame(r *ev.Run) {
+	rounds := 150
+	if r.Tier == "thorough" {
+		rounds = 1500
+	}
+	rnd := rand.New(rand.NewSource(r.Seed + 33))
+	for ri := 0; ri < rounds; ri++ {
+		nmain, nbackup := 1+rnd.Intn(3), 1+rnd.Intn(2)
+		mk := func(extraMain int) []*host.Host {
+			var hs []*host.Host
+			for i := 0; i < nmain+extraMain; i++ {
+				hs = append(hs, host.NewWithType(fmt.Sprintf("10.0.2.%d:80", i+1), host.TypeMain))
+			}
+			for i := 0; i < nbackup; i++ {
+				hs = append(hs, host.NewWithType(fmt.Sprintf("10.0.3.%d:80", i+1), host.TypeBackup))
+			}
+			rnd.Shuffle(len(hs), func(a, b int) { hs[a], hs[b] = hs[b], hs[a] })
+			return hs
+		}
+		set := host.NewSet(mk(0)...)
+		var stop int32
+		var problem atomic.Value
+		var samples int64
+		var rwg sync.WaitGroup
+		for g := 0; g < 3; g++ {
+			rwg.Add(1)
+			go func() {
+				defer rwg.Done()
+				for atomic.LoadInt32(&stop) == 0 {
+					hs := set.Healthy()
+					switch {
+					case len(hs) == 0:
+						problem.Store("no usable host")
+					case hs[0].Type != host.TypeMain || hs[len(hs)-1].Type != host.TypeMain:
+						problem.Store("a backup host is offered: [" + hostsStr(hs) + "]")
+					case len(hs) < nmain:
+						problem.Store(fmt.Sprintf("only %d of the %d main hosts that are members before and after every operation: [%s]", len(hs), nmain, hostsStr(hs)))
+					}
+					atomic.AddInt64(&samples, 1)
+				}
+			}()
+		}
+		nrep := 20 + rnd.Intn(60)
+		for i := 0; i < nrep; i++ {
+			set.ReplaceAll(mk(rnd.Intn(2)))
+		}
+		atomic.StoreInt32(&stop, 1)
+		rwg.Wait()
+		r.Count("replace_same_reader_samples", atomic.LoadInt64(&samples))
+		if p := problem.Load(); p != nil {
+			r.Violation("C15:selection-during-replace-all", "while the endpoint set was replaced by a set with the same healthy main hosts, a concurrent selection saw "+p.(string),
+				map[string]interface{}{"main_hosts": nmain, "backup_hosts": nbackup, "replacements": nrep})
+			break
+		}
+		r.Case(fmt.Sprintf("replace-same/m%d/b%d", nmain, nbackup))
+	}
+	r.Require("replace_same_reader_samples", 10000)
+}
+
 // c15Concurrent: writers / markers / readers on one set; readers assert always-true facts, the join the full equation.
 func c15Concurrent(r *ev.Run) {
 	rounds := 2000
@@ -484,6 +547,7 @@ func c15(r *ev.Run) {
 	scope := []string{"host/host.go"}
 	runAPIPart(r, "sequential", false, nil, 10*time.Minute)
 	runAPIPart(r, "concurrent", true, scope, 10*time.Minute)
+	runAPIPart(r, "replace-same", false, nil, 10*time.Minute)
 	runAPIPart(r, "hysteresis", false, nil, 10*time.Minute)
 	r.Require("sequential_steps", 1000)
 }
